@@ -61,6 +61,7 @@ def run(ck, fb, fbd):
     ranges(ck, fb)
     collectors(ck, fb)
     arithmetic(ck, fb)
+    revalidate_rule(ck, fb)
     from .rule_u import sorted_rule
     sorted_rule(ck, fb, lambda g: "Iter" in g.pq, floor=8)
     from .c15_c16 import sheet_rule
@@ -247,6 +248,38 @@ def entity_iterators(ck, fb):
 
 
 # ------------------------------------------------------------------------------------------ circulators
+def revalidate_rule(ck, fb):
+    """stepping backward from the end (or from any position reached by ++ past the last element) must make the iterator
+    valid again: the flag is a function of the position, so operator-- has to write it on every path"""
+    ck.rule("C05.revalidate", "operator-- of every entity iterator, boundary iterator and circulator writes the validity flag on EVERY path (valid(<position test>), or valid(true) on the in-range side next to valid(false)): an operator-- that can only call valid(false) leaves an iterator that was stepped past the end invalid for ever - --(++it) != it at the last element, and `for (it = --end; it.valid(); --it)` visits nothing")
+    n = 0
+    seen = set()
+    for cls in sorted(set(list(circ_classes(fb)) + ["OpenVolumeMesh::" + nm for nm in ENTITY_ITERS] + [c for c in fb.records if c.startswith("OpenVolumeMesh::BoundaryItemIter<")])):
+        for f in fb.by_cls.get(cls, []):
+            if not (f.has_cfg and f.d.get("op") == "--" and not f.d["params"]) or f.where in seen:
+                continue
+            seen.add(f.where)
+            n += 1
+            setters = set()
+            for b, i, x in f.nodes(("call",)):
+                if b in f.reach() and x.get("pn", "").split("::")[-1] == "valid" and len(x.get("a", [])) == 1:
+                    setters.add(b)
+            # is there a path entry -> exit that avoids every setter block?
+            seen_b, work, free = set(), [f.entry], False
+            while work:
+                u = work.pop()
+                if u in seen_b or u in setters:
+                    continue
+                seen_b.add(u)
+                if u == 0 or not f.succ(u):
+                    free = True
+                    break
+                work += [s_ for s_ in f.succ(u) if s_ is not None]
+            short = re.sub(r"<.*", "", cls_short(cls))
+            (ck.ok if not free else lambda r_, w_, t_: ck.violate(r_, w_, t_, "C05.revalidate:%s" % short))("C05.revalidate", f.where, "%s::operator-- writes the validity flag on every path%s" % (short, "" if not free else " - it can only invalidate (%d valid() call site(s))" % len(setters)))
+    ck.floor("backward_operators", n, 30)
+
+
 def circ_classes(fb):
     out = {}
     for name, r in fb.records.items():
